@@ -75,6 +75,8 @@ func runC01(p *Program, r *Report) {
 	c04unmask(p, r, "C01.unmask")
 	c02frag(p, r, "C01.frag")
 	c14side(p, r, "C01.side")
+	c14server(p, r, "C01.negotiation.server")
+	c14client(p, r, "C01.negotiation.client")
 	sub := newReport(r.Prop, r.Tier)
 	c02rsv(p, sub, "C01.rsv")
 	for _, o := range sub.Obls {
@@ -624,7 +626,7 @@ func runC18(p *Program, r *Report) {
 			What: "NetConn read: expired deadline ↦ deadline error without touching the connection; after EOF ↦ io.EOF again; a Reader error with close status 1000/1001 ↦ io.EOF (sticky); any other error unchanged",
 		})
 		p.forAllPaths(r, "C18.type", fn, "wrong message type", Opts{}, "a message whose type differs from msgType closes the connection with StatusUnsupportedData (1003) and fails the read; the reader is installed only for the right type", func(pa *Path) (bool, string) {
-			mism, known := decidedLike(pa, "call:Conn.Reader@@#0 != netConn.msgType")
+			mism, known := decidedRel(pa, "call:Conn.Reader@@#0", "!=", "netConn.msgType")
 			if !known {
 				return true, ""
 			}
